@@ -174,8 +174,13 @@ def run_cell(cell, seed):
         case = {'cell': cell, 'input': 'certificate'}
         out.append(res(HELD, case, 'M-DISP.linear', info) if st == 'certified' else
                    res(INCONCLUSIVE, case, 'M-DISP.linear', '%s: %s' % (st, detail)))
-    # absent entries
-    if full:
+    # absent entries, with the module in its default padding mode and (one cell in three) with the
+    # padding-mode option set to 'zero': "absent = zeros" is a statement about the inverse as configured
+    variants = [(inv, None)]
+    if full and rnd.random() < 0.34:
+        with util.default_dtype(torch.float64):
+            variants.append((pw.DTCWTInverse(biort=cell['biort'], qshift=cell['qshift'], mode='zero'), 'zero'))
+    for inv_, mode_ in (variants if full else []):
         yl, yh, tol = full['yl'], full['yh'], full['tol']
         masks = [m for m in itertools.product([False, True], repeat=J + 1) if any(m) and not all(m)]
         if len(masks) > 5:
@@ -183,17 +188,19 @@ def run_cell(cell, seed):
         for mask in masks:
             zl = torch.zeros_like(yl) if mask[0] else yl
             zh = [torch.zeros_like(h) if mask[j + 1] else h for j, h in enumerate(yh)]
-            ok0, y0 = util.call_lib(inv, (zl, zh))
+            ok0, y0 = util.call_lib(inv_, (zl, zh))
             if not ok0:
                 out.append(res(INCONCLUSIVE, {'cell': cell, 'mask': list(mask)}, 'M-ABSENT',
                                'explicit-zeros run raised %r' % (y0,)))
                 continue
             for enc in ENCODINGS:
                 case = {'cell': cell, 'input': 'randn', 'absent_mask': list(mask), 'encoding': enc}
+                if mode_:
+                    case['mode'] = mode_
                 kf = kf_for(enc, mask, det, J)
                 al = absent(enc, yl) if mask[0] else yl
                 ah = [absent(enc, h) if mask[j + 1] else h for j, h in enumerate(yh)]
-                ok, y = util.call_lib(inv, (al, ah))
+                ok, y = util.call_lib(inv_, (al, ah))
                 if not ok:
                     out.append(res(VIOLATED, case, 'M-ABSENT', 'raised %r; explicit zeros reconstruct fine' % (y,),
                                    kf_key=kf))
